@@ -30,7 +30,7 @@ ASSUMPTIONS = [
     "module-level state outside the three force-field globals, the class-level descriptor list and the global generator would survive the per-history reset; it would then show up in a later history of the same worker",
     "baselines come from one fresh interpreter per check run (not from the worker that explores)",
 ]
-BOUNDS = {"quick": "4 strings, all histories of depth 2 (14 ops x 2 instances), merged BFS to depth 3", "thorough": "6 strings, all histories of depth 3 for two of them (rotated by seed) and depth 2 for the others, merged BFS to depth 5"}
+BOUNDS = {"quick": "4 strings, all histories of depth 2 (16 ops x 2 instances), merged BFS to depth 3 for three of them", "thorough": "6 strings, all histories of depth 3 for two of them (rotated by seed) and depth 2 for the others, merged BFS to depth 5"}
 CASE_TIMEOUT = {"quick": 900, "thorough": 6000}
 
 STRINGS = [
@@ -138,6 +138,8 @@ def enumerate_cases(tier, seed):
     base = baselines(strings + [SIBLINGS[s] for s in strings])
     # the merged searches are the longest single cases: they go first so that they run beside the history cases
     for si, s in enumerate(strings):
+        if tier == "quick" and s == STRINGS[0]:
+            continue  # its histories cost several times the others' (two Schulz-Zimm blocks): depth-3 search in thorough only
         yield ("bfs", {"s": s, "depth": 3 if tier == "quick" else 5, "base": base[s], "sib": SIBLINGS[s], "sib_base": base[SIBLINGS[s]]})
     for si, s in enumerate(strings):
         depth = 3 if (tier == "thorough" and si < 2) else 2
